@@ -64,6 +64,7 @@ static uint16_t slots[256];
 static server_socket srvsock;
 
 static buffer *out;   /* canonical event list of the current case */
+static buffer *wpend; /* client bytes not yet put into the event list (adjacent writes are merged) */
 
 static int ltv_event_set(fdevents *e, fdnode *fdn, int events) { (void)e; fdn->fde_ndx = fdn->fd; (void)events; return 0; }
 static int ltv_event_del(fdevents *e, fdnode *fdn) { (void)e; (void)fdn; return 0; }
@@ -93,21 +94,38 @@ static void out_hex(const char *tag, const char *p, size_t n) {
     }
 }
 
-/* drain a chunkqueue (mem and temp-file chunks) completely into the event list */
+static void flush_w(void) {
+    if (buffer_is_blank(wpend)) return;
+    out_hex("W:", BUF_PTR_LEN(wpend));
+    buffer_append_string_len(out, CONST_STR_LEN(" "));
+    buffer_clear(wpend);
+}
+
+/* drain a chunkqueue (mem and temp-file chunks) completely into the pending client bytes */
 static void drain_cq(chunkqueue *cq, const char *tag) {
+    (void)tag;
     off_t len = chunkqueue_length(cq);
     if (len <= 0) return;
-    buffer *tb = buffer_init();
-    char *p = buffer_string_prepare_append(tb, (size_t)len);
+    char *p = buffer_string_prepare_append(wpend, (size_t)len);
     if (chunkqueue_read_data(cq, p, (uint32_t)len, srv.errh) < 0) {
+        flush_w();
         buffer_append_string_len(out, CONST_STR_LEN("READERR "));
         chunkqueue_mark_written(cq, chunkqueue_length(cq));
     }
-    else {
-        out_hex(tag, p, (size_t)len);
-        buffer_append_string_len(out, CONST_STR_LEN(" "));
-    }
-    buffer_free(tb);
+    else
+        buffer_commit(wpend, (size_t)len);
+}
+
+/* trailer field lines of a completed chunked body: gw_dechunk->b without the last-chunk line
+ * and without the final empty line (b is blank when the C took its no-trailer short cut) */
+static const char *trailer_fields(const buffer *b, size_t *n) {
+    *n = 0;
+    if (buffer_is_blank(b)) return NULL;
+    const char *nl = memchr(b->ptr, '\n', buffer_clen(b));
+    if (NULL == nl) return NULL;
+    size_t rest = buffer_clen(b) - (size_t)(nl + 1 - b->ptr);
+    *n = rest >= 2 ? rest - 2 : 0;
+    return nl + 1;
 }
 
 static int ltv_network_write(connection *c, chunkqueue *cq, off_t max_bytes) {
@@ -118,6 +136,7 @@ static int ltv_network_write(connection *c, chunkqueue *cq, off_t max_bytes) {
 
 /* h2: interim response (http_dispatch[HTTP_VERSION_2].send_1xx stand-in for h2_send_1xx) */
 static void out_hdrs(request_st *r, const char *tag) {
+    flush_w();
     buffer *tb = buffer_init();
     for (uint32_t i = 0; i < r->resp_headers.used; ++i) {
         const data_string *ds = (data_string *)r->resp_headers.data[i];
@@ -226,9 +245,14 @@ static void ltv_step_h2(request_st * const r) {
           case CON_STATE_RESPONSE_END:
           case CON_STATE_ERROR:
             /* h2_send_end_stream() */
+            flush_w();
             if (r->state != CON_STATE_ERROR && r->resp_body_finished) {
-                if (r->gw_dechunk && r->gw_dechunk->done && !buffer_is_unset(&r->gw_dechunk->b)) {
-                    out_hex("T:", BUF_PTR_LEN(&r->gw_dechunk->b));
+                size_t tn = 0;
+                const char *tf = NULL;
+                if (r->gw_dechunk && r->gw_dechunk->done && !buffer_is_unset(&r->gw_dechunk->b))
+                    tf = trailer_fields(&r->gw_dechunk->b, &tn);
+                if (tn) {
+                    out_hex("T:", tf, tn);
                     buffer_append_string_len(out, CONST_STR_LEN(" "));
                 }
                 else
@@ -295,6 +319,7 @@ static int case_start(request_st * const r, const char *be, int ver, int stream,
     fcntl(sv[0], F_SETFL, fcntl(sv[0], F_GETFL) | O_NONBLOCK);
     fcntl(sv[0], F_SETFD, FD_CLOEXEC);
     fcntl(sv[1], F_SETFD, FD_CLOEXEC);
+    fcntl(sv[1], F_SETFL, fcntl(sv[1], F_GETFL) | O_NONBLOCK);
     peer = sv[1];
     ++cur_fds;
 
@@ -363,6 +388,7 @@ static void do_relay(request_st * const r) {
     if (ltv_ntok < 6) { puts("bad-op"); return; }
     case_reset(r);
     buffer_clear(out);
+    buffer_clear(wpend);
     const int ver = atoi(ltv_tok[2]);
     if (0 != case_start(r, ltv_tok[1], ver, atoi(ltv_tok[3]), ltv_tok[4][0] == 'H')) { puts("bad-op"); return; }
     const char *end = ltv_tok[5];
@@ -371,10 +397,11 @@ static void do_relay(request_st * const r) {
     for (int i = 6; i < ltv_ntok; ++i) {
         size_t n; unsigned char *seg = ltv_unhex(ltv_tok[i], &n);
         size_t off = 0;
-        while (off < n && peer >= 0) {
+        int stuck = 0;
+        while (off < n && peer >= 0 && stuck < 3) {
             ssize_t w = write(peer, seg + off, n - off);
-            if (w <= 0) break;
-            off += (size_t)w;
+            if (w > 0) { off += (size_t)w; stuck = 0; }
+            else ++stuck;
             /* (large segments: let the server side read while we write) */
             if (off < n) hctx_event(r, FDEVENT_IN);
         }
@@ -399,6 +426,7 @@ static void do_relay(request_st * const r) {
         close(peer); peer = -1;
         hctx_event(r, FDEVENT_HUP);
     }
+    flush_w();
     fputs(out->ptr ? out->ptr : "", stdout);
     printf("end=%s st=%d fl=%d%d%d%d\n",
            !done_state ? "pend" : r->keep_alive > 0 ? "ka" : "close",
@@ -435,7 +463,12 @@ static void do_dechunk(request_st * const r) {
     else {
         printf("ok %s te=%lld", out->ptr, (long long)r->gw_dechunk->gw_chunked);
         buffer_clear(out);
-        out_hex(" h=", BUF_PTR_LEN(&r->gw_dechunk->b));
+        if (r->gw_dechunk->done) {
+            size_t tn; const char *tf = trailer_fields(&r->gw_dechunk->b, &tn);
+            out_hex(" t=", tf, tn);
+        }
+        else
+            out_hex(" h=", BUF_PTR_LEN(&r->gw_dechunk->b));
         printf("%s done=%d fin=%d ka=%d\n", out->ptr, r->gw_dechunk->done, r->resp_body_finished, r->keep_alive > 0);
     }
 }
@@ -464,7 +497,7 @@ static void do_fcgi(request_st * const r) {
     out_hex("out=", p, (size_t)len);
     buffer_free(tb);
     printf("%s %s rb=%lld rid=%d\n", rc == HANDLER_GO_ON ? "go" : rc == HANDLER_FINISHED ? "fin" : "other",
-           out->ptr, (long long)chunkqueue_length(hctx->rb), hctx->request_id);
+           out->ptr, rc == HANDLER_GO_ON ? (long long)chunkqueue_length(hctx->rb) : 0LL, hctx->request_id);
 }
 
 int main(void) {
@@ -538,6 +571,7 @@ int main(void) {
     http_dispatch[HTTP_VERSION_2].send_1xx = ltv_h2_send_1xx;
 
     out = buffer_init();
+    wpend = buffer_init();
     while (ltv_next()) {
         if (ltv_ntok < 1) { puts("bad-op"); continue; }
         if (0 == strcmp(ltv_tok[0], "relay")) do_relay(r);
